@@ -12,7 +12,8 @@ theorem mul16_add_fits {size rem : Nat} (h : size * 16 ≤ u64Max) (hr : rem ≤
     size * 16 + rem ≤ u64Max := by
   unfold u64Max at *; omega
 
-theorem readSize_noPanic (rdr : List Nat) (size : Nat) : NoPanic (readSize rdr size) := by
+theorem readSize_noPanic (rdr : List Nat) (size : Nat) (first : Bool) :
+    NoPanic (readSize rdr size first) := by
   unfold readSize
   cases rdr with
   | nil => simp
@@ -60,7 +61,7 @@ theorem readSize_noPanic (rdr : List Nat) (size : Nat) : NoPanic (readSize rdr s
             · cases hm
           · simp [invalid]
         · simp only [h1, h2, h3, if_false]
-          split <;> (try split) <;> (try split) <;> simp [invalid]
+          split <;> (try split) <;> (try split) <;> (try split) <;> simp [invalid]
 
 theorem readBody_noPanic (rdr : List Nat) (rem : Nat) : NoPanic (readBody rdr rem) := by
   unfold readBody
@@ -86,7 +87,8 @@ theorem expectByte_noPanic (w : Nat) (n : CState) (m : String) (rdr : List Nat) 
 /-- one `ChunkedState::step` never panics, whatever the state, the register and the input -/
 theorem step_noPanic (st : CState) (rdr : List Nat) (size : Nat) : NoPanic (step st rdr size) := by
   cases st <;> simp only [step]
-  · exact readSize_noPanic rdr size
+  · exact readSize_noPanic rdr size true
+  · exact readSize_noPanic rdr size false
   · unfold readSizeLws; cases rdr with
     | nil => simp
     | cons b rest => simp only; split <;> (try split) <;> (try split) <;> simp [invalid]
@@ -117,7 +119,25 @@ theorem step_size_bound {st : CState} {rdr : List Nat} {size : Nat} {st' : CStat
       split at h
       · cases h
       · cases h
-      · split at h <;> (try split at h) <;> (try split at h) <;> simp [invalid] at h <;>
+      · split at h <;> (try split at h) <;> (try split at h) <;> (try split at h) <;> simp [invalid] at h <;>
+          (obtain ⟨_, _, rfl, _⟩ := h; exact hs)
+      · split at h
+        · rename_i n hm
+          unfold uadd at h
+          split at h
+          · simp at h; obtain ⟨_, _, rfl, _⟩ := h; assumption
+          · simp at h
+        · simp [invalid] at h
+  · -- size
+    unfold readSize at h
+    cases rdr with
+    | nil => simp at h
+    | cons b rest =>
+      simp only at h
+      split at h
+      · cases h
+      · cases h
+      · split at h <;> (try split at h) <;> (try split at h) <;> (try split at h) <;> simp [invalid] at h <;>
           (obtain ⟨_, _, rfl, _⟩ := h; exact hs)
       · split at h
         · rename_i n hm
@@ -182,7 +202,23 @@ theorem step_progress {st : CState} {rdr : List Nat} {size : Nat} {st' : CState}
       split at h
       · cases h
       · cases h
-      · split at h <;> (try split at h) <;> (try split at h) <;> simp [invalid] at h <;>
+      · split at h <;> (try split at h) <;> (try split at h) <;> (try split at h) <;> simp [invalid] at h <;>
+          (obtain ⟨_, rfl, _⟩ := h; simp)
+      · split at h
+        · unfold uadd at h
+          split at h
+          · simp at h; obtain ⟨_, rfl, _⟩ := h; simp
+          · simp at h
+        · simp [invalid] at h
+  · unfold readSize at h
+    cases rdr with
+    | nil => simp at h
+    | cons b rest =>
+      simp only at h
+      split at h
+      · cases h
+      · cases h
+      · split at h <;> (try split at h) <;> (try split at h) <;> (try split at h) <;> simp [invalid] at h <;>
           (obtain ⟨_, rfl, _⟩ := h; simp)
       · split at h
         · unfold uadd at h
@@ -363,7 +399,23 @@ theorem step_facts {st : CState} {rdr : List Nat} {size : Nat} {st' : CState} {r
       split at h
       · cases h
       · cases h
-      · split at h <;> (try split at h) <;> (try split at h) <;> simp [invalid] at h <;>
+      · split at h <;> (try split at h) <;> (try split at h) <;> (try split at h) <;> simp [invalid] at h <;>
+          (obtain ⟨rfl, rfl, rfl, rfl⟩ := h; simp)
+      · split at h
+        · unfold uadd at h
+          split at h
+          · simp at h; obtain ⟨rfl, rfl, rfl, rfl⟩ := h; simp
+          · simp at h
+        · simp [invalid] at h
+  · unfold readSize at h
+    cases rdr with
+    | nil => simp at h
+    | cons b rest =>
+      simp only at h
+      split at h
+      · cases h
+      · cases h
+      · split at h <;> (try split at h) <;> (try split at h) <;> (try split at h) <;> simp [invalid] at h <;>
           (obtain ⟨rfl, rfl, rfl, rfl⟩ := h; simp)
       · split at h
         · unfold uadd at h
